@@ -408,7 +408,8 @@ def native_enumeration(limit=4000):
     bad, n = [], 0
     for nf in (1, 2, 3):
         for combo in itertools.product(range(4), repeat=nf):
-            for ipc in (False, True):
+            # explicit ports: far away from the default range, and odd / even ports at and around the start of the automatic range (each output occupies its port and the next)
+            for ipc, pbase in itertools.product((False, True), (6000, 5549, 5550, 5551, 5552, 5553) if 2 in combo[:-1] else (6000,)):
                 args = []
                 for i, kind in enumerate(combo):
                     cls = classes[min(i, 2)] if nf > 1 else 'VideoIn'
@@ -416,7 +417,7 @@ def native_enumeration(limit=4000):
                     if kind == 1:
                         args += ['--id', f'f{i}']
                     if kind == 2 and i < nf - 1:
-                        args += ['--outputs', f'tcp://*:{6000 + 10 * i}']
+                        args += ['--outputs', f'tcp://*:{pbase + 10 * i}']
                     if kind == 3 and i > 0:
                         args += ['--sources', f'{"f" + str(i - 1) if combo[i - 1] == 1 else (classes[min(i - 1, 2)])};main!opt']
                     args.append('-')
@@ -448,7 +449,7 @@ def native_enumeration(limit=4000):
 def extra_checks(tier, seed, pool):
     r = native_enumeration(2000 if tier == 'quick' else 20000)
     out = {'bounded': [{'clause': 'C12 postconditions on the WHOLE parse_filters (argument parsing included)', 'kind': 'BOUNDED native enumeration (not a proof)',
-                        'bound': '1..3 filters x {plain, --id, --outputs tcp://*:port, --sources <ref>;main!opt} x ipc on/off', 'cases': r['cases'], 'failures': len(r['observed']) if r['confirmed'] else 0}]}
+                        'bound': '1..3 filters x {plain, --id, --outputs tcp://*:port (6000.., and odd/even ports 5549..5553 around the automatic range), --sources <ref>;main!opt} x ipc on/off', 'cases': r['cases'], 'failures': len(r['observed']) if r['confirmed'] else 0}]}
     if r['confirmed']:
         out['failures'] = [{'obligation': 'C12 (bounded): generated command line violates a postcondition', 'unit': 0, 'shape': 'bounded', 'model': None, 'extra': None, 'goal': '', 'path_condition': [],
                             'solver': 'bounded enumeration', 'native': r}]
